@@ -6,7 +6,7 @@ import shutil
 import tempfile
 
 from engine import SPEC, gen_states, pool_map
-from readers import run_cli, split_tag, write_text
+from readers import eol_for, run_cli, split_tag, write_text
 
 DATA = json.load(open(os.path.join(SPEC, "data", "phase_pool.json")))
 
@@ -27,7 +27,7 @@ def run_case(job):
     try:
         gaf = os.path.join(d, "a.gaf" + (".gz" if storage == "bgzf" else ""))
         lines = [gaf_line(r, k) for k, r in enumerate(recs)]
-        write_text(gaf, "\n".join(lines) + "\n", storage, block=150)
+        write_text(gaf, "\n".join(lines) + eol_for(cid), storage, block=150)
         tp = os.path.join(d, "h.tsv")
         with open(tp, "w") as f:
             for row in tsv:
